@@ -49,6 +49,7 @@ def run(fb, rep, tier):
     c5_loops(fb, rep)
     c6_rearm(fb, rep)
     completion_flag(fb, rep, 'C10.7')
+    c8_publish_then_notify(fb, rep)
 
 
 # ----------------------------------------------------------------------------- .1
@@ -642,8 +643,7 @@ def _loop_exit_guards(f, first_only=False):
 
 # ----------------------------------------------------------------------------- .6
 
-def c6_rearm(fb, rep):
-    clause = 'C10.6'
+def c6_rearm(fb, rep, clause='C10.6'):
     ds = fb.find1('EngineMainThread::doSearch')
     em = fb.find1('EngineMainThread::mainLoop')
     if rep.need(clause, ds, 'EngineMainThread::doSearch') is None or rep.need(clause, em, 'EngineMainThread::mainLoop') is None:
@@ -807,3 +807,53 @@ def strip_cast(t):
     while isinstance(t, dict) and t.get('k') == 'cast':
         t = t.get('e')
     return t
+
+
+# ----------------------------------------------------------------------------- .8 publish, then notify
+
+def c8_publish_then_notify(fb, rep):
+    """K2 order: a thread that sleeps on a Notifier re-reads some fields of its object after every wake-up (e.g.
+    `terminate`).  Another thread that changes such a field and wakes the sleeper must write first and notify
+    afterwards: notify-then-write lets the sleeper wake, see the old value and go back to sleep for good (the
+    writer then blocks in join()).  Decided for every class with a Notifier field: in every method that both
+    writes a watched field and notifies that notifier, every path from the write to the exit passes the notify."""
+    clause = 'C10.8'
+    n = 0
+    for cls, rec in sorted(fb.records.items()):
+        nots = [fl['n'] for fl in rec.get('fields', []) if strip_t(fl.get('ct') or '') == 'Notifier']
+        if not nots:
+            continue
+        meths = [f for f in fb.funcs.values() if f.has_cfg and strip_t(f.d.get('cls') or '') == strip_t(cls)]
+        for N in nots:
+            # waiter methods and the fields they test
+            watched = set()
+            for f in meths:
+                waits = any(e.get('k') == 'call' and cname(e) == 'Notifier::wait' and ap(e.get('recv')) == 'this.' + N for _, _, e in f.events()) or \
+                    any(e.get('k') == 'call' and cname(e).endswith('::notifierWait') for _, _, e in f.events())
+                if not waits:
+                    continue
+                for bid, blk in f.blocks.items():
+                    c = (blk.get('term') or {}).get('cond')
+                    if c is None or bid in f.dead:
+                        continue
+                    for nd in walk(c):
+                        p_ = ap(nd) if nd.get('k') == 'mem' else None
+                        if p_ and p_.startswith('this.') and p_.count('.') == 1:
+                            watched.add(p_[5:])
+            watched -= set(nots)
+            if not watched:
+                continue
+            for f in sorted(meths, key=lambda x: x.key):
+                notifies = [(b, i, e) for b, i, e in f.events() if e.get('k') == 'call' and cname(e) == 'Notifier::notify' and ap(e.get('recv')) == 'this.' + N]
+                if not notifies:
+                    continue
+                for b, i, e in f.events():
+                    tgt = e.get('l') if e.get('k') == 'asg' else e.get('recv') if (e.get('k') == 'call' and cname(e).endswith('::operator=')) else None
+                    p_ = ap(tgt) if tgt is not None else None
+                    if not (p_ and p_.startswith('this.') and p_[5:] in watched):
+                        continue
+                    n += 1
+                    w = f.path_avoiding((b, i), R.at_exit, lambda ev, _N=N: ev is not None and ev.get('k') == 'call' and cname(ev) == 'Notifier::notify' and ap(ev.get('recv')) == 'this.' + _N)
+                    rep.ob(clause, 'K2 publish before notify', '%s: the new value of %s is written before the sleeper on %s is woken' % (f.sname, p_[5:], N), w is None, R.site(f, e),
+                           '' if w is None else 'no notify follows the write on the path ' + ' -> '.join('B%s' % x[0] for x in w[-5:]), f.sname)
+    rep.floor(clause, 'writes of watched fields in notifying methods', n, 1)
